@@ -8,6 +8,7 @@ import (
 	"github.com/privacybydesign/gabi/internal/simhook"
 	"io"
 	"runtime"
+	"sync"
 
 	"github.com/go-errors/errors"
 	"github.com/privacybydesign/gabi/big"
@@ -28,13 +29,16 @@ func GenerateConcurrent(bitsize int, stop chan struct{}) (<-chan *big.Int, <-cha
 	// this, so that we always stop all goroutines independent of whether the caller close()s stop
 	// or sends a struct{}{} to it.
 	stopped := make(chan struct{})
+	// The watcher and every goroutine that runs into an error close stopped; it must be closed once.
+	var stopOnce sync.Once
+	stopAll := func() { stopOnce.Do(func() { close(stopped) }) }
 	go func() {
 		simhook.Spawned("safeprime.watcher")
 		defer simhook.Exited("safeprime.watcher")
 		select {
 		case <-stop:
 			simhook.Yield("safeprime.watcher:before-close")
-			close(stopped)
+			stopAll()
 		case <-stopped: // stopped can also be closed by a goroutine that encountered an error
 		}
 	}()
@@ -50,7 +54,7 @@ func GenerateConcurrent(bitsize int, stop chan struct{}) (<-chan *big.Int, <-cha
 				simhook.Yield("safeprime.worker:generated")
 				if err != nil {
 					errs <- err
-					close(stopped)
+					stopAll()
 					return
 				}
 
